@@ -9,9 +9,24 @@ INVS = ["I_CholPartial", "I_ExactOK", "I_Nilpotent", "I_ZeroDetSound", "I_OkNonS
 _REJ = re.compile(r'^<<"REJECT", (\d+), "(.*)">>\s*$', re.M)
 
 
+_REJD = re.compile(r'^<<"REJECTED", "(.*)">>\s*$', re.M)
+
+
 def validate_simple(module, trace, wd, name, max_rounds=10):
-    """independent one-line events: reject -> record, drop the line, continue"""
+    """Independent one-line events.  Trace_Matrix / Trace_Gamma judge every event in one pass (invariant Verdict prints
+    the rejected line numbers); Trace_Vec stops at the first rejected event, which is then dropped and the rest re-validated."""
     core.lint_trace_file(trace)
+    lines = [l for l in open(trace) if l.strip()]
+    if module in ("Trace_Matrix", "Trace_Gamma"):
+        cfg = core.cfg_text(spec="TSpec", invariants=["Verdict"], postcondition="TraceAccepted")
+        r = core.tlc(module, cfg, name, wd, workers=1, timeout=1800, coverage=False, dfs=True, env_extra={"TRACE": trace}, xmx="6g")
+        m = _REJD.search(r.out)
+        if m:
+            info = json.loads(core.unquote_tla_string(m.group(1)))
+            return [{"line": ln, "event": json.loads(lines[ln - 1])} for ln in info["lines"]], r.distinct
+        if r.violated:
+            raise core.ToolError("%s: trace not consumed (%s)\n%s" % (module, r.violated, r.out[-1500:]))
+        return [], r.distinct
     rej = []
     cur = trace
     states = 0
